@@ -35,7 +35,7 @@ TScenario ==
    /\ obs' = [tmp |-> -1, fin |-> -1] /\ json' = [tmp |-> "absent", fin |-> "absent"]
    /\ flushed' = 0 /\ status' = "running" /\ fault' = 0 /\ copyfail' = FALSE /\ moveok' = TRUE
 
-IsCall == l <= Len(Log) /\ Rec.c \notin {"scenario", "killed", "returned", "aborted"}
+IsCall == l <= Len(Log) /\ Rec.c \notin {"scenario", "killed", "returned", "aborted", "killed_mt", "returned_mt", "aborted_mt"}
 
 \* one recorded call = the model's next call
 TCall ==
@@ -77,7 +77,25 @@ TAborted ==
    /\ (kind = "fault09" => ObsC09b(Rec))
    /\ status' = "aborted" /\ UNCHANGED <<sc, pc, obs, json, flushed, fault, copyfail, moveok, kind>>
 
-TNext == TScenario \/ TCall \/ TKilled \/ TReturned \/ TAborted
+\* ---- two threads of one process (RtFs2): outcome records carry one entry per stream, the emulator
+\* verdicts are those of the whole directory; judged by the monitors alone (kind "mt" / "mt09")
+Streams(r) == {r.streams[i] : i \in 1..Len(r.streams)}
+MtC09a(r) == \A d \in {"tmp", "fin"} : r.emu[d] = "ok" =>
+                \A x \in Streams(r) : x.json[d] # "absent" => x.obs[d] >= x.flushed
+MtC09b(r) == \A x \in Streams(r) : x.json.fin = "fin" => x.obs.fin >= x.flushed
+MtC10a(r) == \A x \in Streams(r) : \E d \in {"tmp", "fin"} :
+                x.json[d] = "fin" /\ x.obs[d] >= x.flushed /\ r.emu[d] = "ok"
+MtC10b(r) == \A x \in Streams(r) : x.flushed > 0 => (x.obs.tmp >= x.flushed \/ x.obs.fin >= x.flushed)
+MtKeep == UNCHANGED <<sc, pc, obs, json, flushed, fault, copyfail, moveok, kind>>
+TKilledMT   == Is("killed_mt") /\ status = "running" /\ kind \in {"mt", "mt09"}
+               /\ MtC09a(Rec) /\ MtC09b(Rec) /\ status' = "killed" /\ MtKeep
+TReturnedMT == Is("returned_mt") /\ status = "running" /\ kind \in {"mt", "mt09"}
+               /\ (kind = "mt" => MtC10a(Rec)) /\ MtC09a(Rec) /\ MtC09b(Rec) /\ status' = "returned" /\ MtKeep
+TAbortedMT  == Is("aborted_mt") /\ status = "running" /\ kind \in {"mt", "mt09"}
+               /\ (kind = "mt" => (Rec.diag /\ MtC10b(Rec))) /\ MtC09a(Rec) /\ MtC09b(Rec)
+               /\ status' = "aborted" /\ MtKeep
+
+TNext == TScenario \/ TCall \/ TKilled \/ TReturned \/ TAborted \/ TKilledMT \/ TReturnedMT \/ TAbortedMT
 TSpec == TInit /\ [][TNext]_tvars
 
 Accepted == TLCGet("stats").diameter - 1 = Len(Log)
